@@ -34,7 +34,7 @@ if [ $CONFIRMED = yes ]; then
   # the checks run against the scratch worktree (with the change applied) through VERIF_REPO, so that
   # several evaluations can run side by side and /repo itself is never touched
   for c in $CHECKS; do
-    VERIF_REPO=$W VERIF_REPLAYS=/dev/shm/verif-mut-replays VERIF_EVIDENCE_DIR=/dev/shm/verif-mut-evidence bin/check $c > /tmp/evalmut.$$.check.$c 2>&1; RC=$?
+    VERIF_REPO=$W VERIF_REPLAYS=/dev/shm/verif-mut-replays VERIF_EVIDENCE_DIR=/dev/shm/verif-mut-evidence bin/check $c > /tmp/evalmut.$$.check.$c 2>&1; RC=$?; cp /tmp/evalmut.$$.check.$c /dev/shm/verif-scratch/evalmut-$NAME-$c.log
     echo "bin/check $c with the change applied: exit $RC"; grep "VIOLATION\|infra" /tmp/evalmut.$$.check.$c | head -3
     RES="$RES $c:$RC"
   done
